@@ -210,10 +210,10 @@ type Window struct {
 	FromStatic []int64
 	FromNow    bool
 	// NotAfter relative to NotBefore by calendar addition, or absolute.
-	UntilStatic []int64
+	UntilStatic      []int64
 	AddY, AddM, AddD int
-	UntilAbs    bool
-	Err         error // configuration is invalid (until+duration, bad date)
+	UntilAbs         bool
+	Err              error // configuration is invalid (until+duration, bad date)
 }
 
 // RefWindow computes the documented meaning of a validity block.
